@@ -228,6 +228,9 @@ func (t *Tree) walk() []KIV {
 				} else {
 					bad("node %v slot %d holds an item with nil Value", id, i)
 				}
+				if len(out) > 0 && out[len(out)-1].K/t.cfg.Gran > it.Key/t.cfg.Gran {
+					bad("keys out of order: %d before %d in the in-order walk", out[len(out)-1].K, it.Key)
+				}
 				out = append(out, KIV{K: it.Key, ID: t.idOf(it.ID), V: v})
 			}
 		}
@@ -278,6 +281,35 @@ func (t *Tree) trueCursor() int {
 	return t.idOf(n.Slots[idx].ID)
 }
 
+// reordered: the items present both before and after the call appear in a different relative order.
+func reordered(a, b []KIV) bool {
+	inA := map[int]bool{}
+	for _, x := range a {
+		inA[x.ID] = true
+	}
+	inB := map[int]bool{}
+	for _, x := range b {
+		inB[x.ID] = true
+	}
+	i, j := 0, 0
+	for {
+		for i < len(a) && !inB[a[i].ID] {
+			i++
+		}
+		for j < len(b) && !inA[b[j].ID] {
+			j++
+		}
+		if i >= len(a) || j >= len(b) {
+			return false
+		}
+		if a[i].ID != b[j].ID {
+			return true
+		}
+		i++
+		j++
+	}
+}
+
 func diffIDs(a, b []KIV) []int {
 	ma := map[KIV]bool{}
 	for _, x := range a {
@@ -324,6 +356,9 @@ func guard(f func() (bool, error)) (r string) {
 
 func (t *Tree) finish(e Event) {
 	now := t.walk()
+	if t.sane && reordered(t.last, now) {
+		t.sane, t.why = false, "relative order of items stored before the call changed"
+	}
 	e.Aff = diffIDs(t.last, now)
 	t.last = now
 	e.Cnt = int(t.b.Count())
